@@ -104,4 +104,14 @@ TEXT = {
  'note': 'Trusted: refwire as strict response parser and as builder of the valid starting points; memnet.Serve.',
  'technique': 'property-based testing (rapid): single-fault injection into valid requests with a per-class code oracle; strict reference decoder as '
               'well-formedness oracle; prefix rule for delivered messages'},
+    'C05': {'text': 'Exploration by differential testing against an independent codec: (1) generated handler programs are driven by reference-client requests in every '
+         'legal variation and the raw response must be strictly decodable to exactly what the application supplied (incl. the structural clauses: HTTP 200 + '
+         "exactly one grpc-status in the right place, exactly one final end-of-stream envelope, JSON error under the code's status, Content-Type echo, "
+         'compressed flag only with a named algorithm); (2) library clients talk to a reference server that answers in every legal variation; their requests '
+         "must be strictly decodable and the responses decoded to the same values. Both directions also run over the standard library's HTTP/1.1 and h2c "
+         'stacks.',
+ 'design_ref': 'DESIGN.md §5 C05',
+ 'note': "Trusted base: refwire (~1 kLoC), Go's encoding/json, compress/*, base64, google.golang.org/protobuf (protowire, protojson for Any).",
+ 'technique': 'property-based testing (rapid): differential testing against an independent strict reference implementation of the three protocols, in both '
+              'directions'},
 }
